@@ -117,6 +117,17 @@ def handleLoop (op : String) (j : Json) : Except String Json := do
     .ok (rExcept (fun (p : Result Float × Nat × Book Float) =>
       Json.mkObj [("evolution", rList (rList rAgentTC) p.1.evolution), ("rates", rList rFloat p.1.rates),
                   ("best", rAgentTC p.1.best), ("steps", rNat p.2.1)]) r)
+  | "loop.firststop" =>
+    -- the declarative criterion on a REPORTED rate history (`C04.c04_reported`): first cycle at which a configured criterion holds
+    let rates ← (← getArr (← field j "rates")).mapM getFloat
+    let mc ← getInt (← field j "maxCycles")
+    let fe ← match j.getObjVal? "fe" with | .ok .null => pure none | .ok v => do pure (some (← getFloat v)) | .error _ => pure none
+    let es ← match j.getObjVal? "es" with
+      | .ok .null => pure none
+      | .ok v => do pure (some ({ patience := (← getNat (← field v "patience")), minDelta := (← getFloat (← field v "minDelta")) } : ES Float))
+      | .error _ => pure none
+    let cfg : StopCfg Float := { maxCycles := mc, fe := fe, es := es }
+    .ok (Json.mkObj [("first", match firstStop floatArith cfg rates with | some n => rNat n | none => Json.null)])
   | "run.accept" =>
     -- the proved-sound acceptor (PvModel/Accept.lean) on one traced run
     let t ← getTask (← field j "task")
